@@ -692,17 +692,18 @@ impl<F: Fam> Ctx<F> {
         let src_vh = self.meta[src + 2].vh;
         let prevq = panic_quiet(true);
         let _ = take_last_panic();
+        let armed = self.arm.is_some();
         let r;
         let al;
         if from {
             let (a, b) = self.sets.split_at_mut(1);
             let (d, sref) = if dst == 0 { (&mut a[0], &b[0]) } else { (&mut b[0], &a[0]) };
-            let (rr, aa) = window(|| std::panic::catch_unwind(std::panic::AssertUnwindSafe(|| d.set.clone_from(&sref.set))));
+            let (rr, aa) = window(|| fcall(armed, || d.set.clone_from(&sref.set)));
             r = rr.map(|_| None);
             al = aa;
         } else {
             let sset = &self.sets[src].set;
-            let (rr, aa) = window(|| std::panic::catch_unwind(std::panic::AssertUnwindSafe(|| sset.clone())));
+            let (rr, aa) = window(|| fcall(armed, || sset.clone()));
             r = rr.map(Some);
             al = aa;
         }
